@@ -95,8 +95,8 @@ theorem multi_iter (cfg : Cfg) (ty : Ty) : ∀ (fuel : Nat) (p : Pump) (inp : Li
           · simp only [hn, if_false, Bool.false_eq_true] at h ⊢
             exact hdeser p1 inp1 h
         | seqStart a tg rt l => simp only at h ⊢; exact hdeser p1 inp1 h
-        | seqEnd l => simp only at h ⊢; exact hdeser p1 inp1 h
+        | seqEnd l => simp at h
         | mapStart a l => simp only at h ⊢; exact hdeser p1 inp1 h
-        | mapEnd l => simp only at h ⊢; exact hdeser p1 inp1 h
+        | mapEnd l => simp at h
 
 end SaphyrVerif.Lemmas.C11
